@@ -302,3 +302,10 @@ Proof. vm_compute. repeat split; reflexivity. Qed.
 
 Example C07_nonvacuous_refs : ref_num 3 2 = [[0; 0; 2]; [0; 1; 1]; [0; 2; 0]; [1; 0; 1]; [1; 1; 0]; [2; 0; 0]] /\ binom 4 2 = 6.
 Proof. vm_compute. split; reflexivity. Qed.
+
+Example C07_nonvacuous_select :
+  let arr := [QF 2; QF 0; QF 1; QF 1; QF 0] in
+  draws_valid qx_ops 6 arr 0 4 2 [3; 0; 2; 2]%Z = true /\
+  qx_eqb (fst (rand_select qx_ops 6 arr 0 4 2 [3; 0; 2; 2]%Z)) (QF 1) = true /\
+  qx_eqb (kth_smallest qx_ops arr 2) (QF 1) = true.
+Proof. vm_compute. repeat split; reflexivity. Qed.
